@@ -11,8 +11,8 @@ NA = {
 }
 TECH = {
  "C01": "abstract interpretation (affine forms + Fourier-Motzkin path facts) of the propagation loop, search loop and wake-up table; dependency analysis of propagators vs triggers; who-may-write analysis; interprocedural index-kind inference; intra-function agreement rules on filtering functions (interval sums, 32-bit vector arithmetic)",
- "C02": "typestate over generator paths; partition algebra on abstract post-states of value heuristics; engine soundness and shaving rules shared with C01/C10 (scope table); agreement of candidate test and forced bound in aggregate constraints",
- "C03": "must-precede / must-follow on abstract paths of the optimisation loops; affine equality of tightening stores; flow-sensitive maybe-None analysis of optimisation results",
+ "C02": "typestate over generator paths; partition algebra on abstract post-states of value heuristics; engine soundness and shaving rules shared with C01/C10 (scope table); agreement of candidate test and forced bound in aggregate constraints; coverage of the default decision set (all shared domains)",
+ "C03": "must-precede / must-follow on abstract paths of the optimisation loops; affine equality of tightening stores; flow-sensitive maybe-None analysis of optimisation results; who-may-write lint (no solver code stores into the problem object)",
  "C04": "progress-measure rules on abstract paths; loop-variant derivation (guard measure, monotone pointer, counter sum) with Houdini invariants; structural preconditions of the Hall-interval filtering (sibling cross-check); call-graph closure of address-taken registries (no raise behind a function pointer); push on every path of every value heuristic",
  "C07": "who-may-write + path-condition analysis of enabled-flag stores; return-vocabulary check over the call graph; entailment of path facts for the index / counter / table families of entailment guards; enforce/entail and mirror agreement",
  "C08": "bound-dependency (taint) analysis of filtering functions against per-position trigger masks (effect calls modelled, may-dependences refused); event-mask exactness and write-back completeness on abstract paths",
@@ -20,12 +20,12 @@ TECH = {
  "C10": "abstract interpretation of the shaving probe with a callee summary; first-iteration and loop-variant analysis of the probing loop (cursor monotonicity from the value filter passed to the scan)",
  "C11": "path analysis of worker exits and of the parent receive loop (marker counting, keep-best fold, slot writes, join placement); dispatch-table tracing of the address arrays",
  "C12": "abstract interpretation of Problem.split; affine adjacency and clamp entailment; ownership analysis of the domain lists; lint of copy / pickle hooks",
- "C13": "abstract interpretation of Problem.init (Python level) against the per-constraint cache oracle; offset round-trip equalities; interprocedural index-kind inference (indices, counts, returned positions); sort-guard invalidation and posting-order-list analysis",
- "C15": "resolved call-graph role propagation (argument/parameter agreement), dispatch-table tracing, module-level state and mutable-default lint; narrow-dtype arithmetic lint; call-graph closure of address-taken registries",
+ "C13": "abstract interpretation of Problem.init (Python level) against the per-constraint cache oracle; offset round-trip equalities; interprocedural index-kind inference (indices, counts, returned positions); sort-guard invalidation and posting-order-list analysis; optional-argument resolution lint (is-None dominance, no truthiness on model integers); who-may-write lint on the problem object",
+ "C15": "resolved call-graph role propagation (argument/parameter agreement), dispatch-table tracing, module-level state and mutable-default lint; narrow-dtype arithmetic lint; call-graph closure of address-taken registries; sort-stability lint; who-may-write lint on the problem object",
  "C16": "index-within-extent entailment from path facts for every shape index (table-free classification); assume/guarantee extent analysis of the Hall-interval helpers with inductive invariants; capacity-guard entailment; allocation-shape agreement; clamp-before-use and guard-one-off contradictions; index-kind inference",
  "C17": "counter <-> event-site correspondence on abstract paths (exactly-once on event paths, never elsewhere); label/index/aggregator table agreement (dict literal or comprehension over a constant table)",
  "C18": "structural necessary conditions (handle retention, bounded queue read, liveness-dependent exit that leaves the call, no SIGCHLD disposition, no one-shot iterator across the waiting loop) on abstract paths and the syntax tree",
- "C19": "capacity-guard entailment on abstract paths (dtype range of the level pointer, push extent; assertions establish nothing); lint of wrapping conversions to narrow index types; dtype agreement of index-carrying arrays; narrow-dtype arithmetic lint"
+ "C19": "capacity-guard entailment on abstract paths (dtype range of the level pointer, push extent; assertions establish nothing); lint of wrapping conversions to narrow index types; dtype agreement of index-carrying arrays; narrow-dtype arithmetic lint; error-propagation lint (no exit in finally, no swallowed search error)"
 }
 checks = []
 for pid in CLAIMED:
@@ -56,7 +56,7 @@ man = {
               "kind_free_text": "pure-stdlib ast-based static analyser: program model (imports, folded constants, registries, role propagation, mod summaries), "
                                 "path-sensitive abstract interpreter over affine forms with store-log memory, Fourier-Motzkin entailment, Houdini loop invariants, rule tables"}],
  "checks": checks,
- "notes": "Technique family: static analysis only (nothing under /repo is imported or executed by a check). 17 genuine defects of the pinned tree were reported by a check on the unchanged tree and then repaired by fix: commits in /repo "
+ "notes": "Technique family: static analysis only (nothing under /repo is imported or executed by a check). 18 genuine defects of the pinned tree were reported by a check on the unchanged tree and then repaired by fix: commits in /repo "
           "(listed in known_findings.json under 'fixed'; none is left under 'known'). Exit codes: 0 ok, 1 VIOLATION, 2 ANALYSIS-ERROR.",
  "not_applicable": [{"property_id": k, "reason": v} for k, v in NA.items()],
 }
